@@ -19,6 +19,8 @@ func SafeCmdExecution(executable string, args []string, timeout time.Duration) (
 	defer cancel()
 
 	cmd := exec.CommandContext(ctx, executable, args...)
+	// do not wait forever for stdout to be closed by (grand)children that outlive the command
+	cmd.WaitDelay = 500 * time.Millisecond
 	out, err := cmd.Output()
 
 	if ctx.Err() == context.DeadlineExceeded {
